@@ -36,7 +36,8 @@ LEVEL = "exploration"
 WORKERS = {"quick": 4, "thorough": 16}
 BUDGET = {"quick": 55, "thorough": 560}
 RULE = (
-    "Cases: Hypothesis-generated histories (3-16 ops) over one project drawn from five state point "
+    "Cases: Hypothesis-generated histories (0-7 initial jobs, a view, then 1-5 rounds of 0-3 data space "
+    "changes followed by a view / repeat / reject probe) over one project drawn from five state point "
     "universes (homogeneous a/b/c; heterogeneous with optional keys and the key/value 'job'; nested n.x/n.y; "
     "type-colliding values 1/'1'/1.5/'1.5'/True/'True'; the a0/job leaf-node family). Ops: add, remove, re-key one job, "
     "re-key all jobs on one key, create_linked_view(job_ids=None|subset, path=None|False|format string), "
@@ -46,7 +47,9 @@ RULE = (
     "from the workspace; predicts must-succeed / may-reject / must-reject. "
     "Non-trivial: a successful view *update* after >=1 removal or re-key since the previous successful view "
     "that changes the set of distinguishing keys, or an update with a job_ids subset or a custom path; "
-    "distinct by case hash."
+    "distinct by case hash. A key or string value spelled 'job' is drawn at low weight (one value of one key in "
+    "the heterogeneous universe; the a0/job universe); generic tree/exception mismatches at calls where such a "
+    "token is in play are attributed to known finding F-VIEWJOBTOKEN, root-cause specific detectors never are."
 )
 TECHNIQUE = "Hypothesis-generated op histories against a model read from disk; differential incremental-vs-from-scratch; independent path-token oracle"
 LEVEL_TEXT = (
@@ -952,5 +955,5 @@ def run(ctx):
     if ctx.worker == 0:
         for case in CONSTRUCTED:
             ctx.apply(case)
-    n = 1200 if ctx.tier == "quick" else 9000
+    n = 1200 if ctx.tier == "quick" else 5000
     drive(ctx, case_strategy(), n, ctx.apply)
